@@ -7,6 +7,60 @@ HERE = os.path.dirname(os.path.dirname(os.path.abspath(__file__)))
 PY = "PYTHONPATH=/repo PYTHONHASHSEED=0 /venv/bin/python run.py"
 
 CHECKS = {
+    "C01": dict(
+        text='Invariants C01_NoOversub / C01_LedgerAgrees / C01_SingleWorker are model-checked on SimMC (hostile policy naming full pools, all instants) and evaluated by TLC in every state of every recorded trace of the real simulator; the logged per-instance availability and occupants must equal what the handler operators compute (Worker place/remove first-fit semantics from LedgerOps).',
+        design_ref='DESIGN.md §5 C01',
+        note="trusted: TLC; the tracer's projection of the Simulator state (harness/simrun.py); scheduler answers, draws and fuzz bound from the log; SimMC bounded to the small worlds of harness/simmc.py; corpus = generated + directed worlds (EDF/FIFO/LSF/hostile policies)",
+        technique='TLA+ spec of the simulator loop (Simulator.tla): TLC exhaustive exploration under an arbitrary policy (SimMC) + trace validation of real simulate() runs (SimTrace)',
+    ),
+    "C02": dict(
+        text="C02_StartedProperly (start >= release, all predecessors COMPLETED before start; taken branch for joins) and at-most-once (legal lifecycle edges) are model-checked on SimMC incl. plan-ahead deferral, and evaluated on every state of every recorded trace; the TASK_PLACEMENT handler (ready / not ready / cancelled) must equal the spec's.",
+        design_ref='DESIGN.md §5 C02',
+        note="trusted: TLC; the tracer's projection of the Simulator state (harness/simrun.py); scheduler answers, draws and fuzz bound from the log; SimMC bounded to the small worlds of harness/simmc.py; corpus = generated + directed worlds (EDF/FIFO/LSF/hostile policies)",
+        technique='TLA+ spec of the simulator loop (Simulator.tla): TLC exhaustive exploration under an arbitrary policy (SimMC) + trace validation of real simulate() runs (SimTrace)',
+    ),
+    "C03": dict(
+        text='Clock monotonicity, step size of the loop, popped event EvLess-minimal, completion exactly at start + chosen runtime (variance range), start not before the planned time, deferral rules of TASK_PLACEMENT: action properties / invariants on SimMC over all same-microsecond orders; every loop action of every recorded trace (step size, pop order, event queue content, task timestamps) must be the one Simulator.tla computes.',
+        design_ref='DESIGN.md §5 C03',
+        note="trusted: TLC; the tracer's projection of the Simulator state (harness/simrun.py); scheduler answers, draws and fuzz bound from the log; SimMC bounded to the small worlds of harness/simmc.py; corpus = generated + directed worlds (EDF/FIFO/LSF/hostile policies)",
+        technique='TLA+ spec of the simulator loop (Simulator.tla): TLC exhaustive exploration under an arbitrary policy (SimMC) + trace validation of real simulate() runs (SimTrace)',
+    ),
+    "C05": dict(
+        text='Termination is a liveness property (<>ended) of SimMC under weak fairness; NextSchedulerEvent is transcribed branch by branch and every recorded SCHEDULER_FINISHED must produce exactly the next SCHEDULER_START / SIMULATOR_END the spec computes; each world runs under a watchdog (zero-length-step counter, wall clock): hang or crash is a verdict; end-of-run invariants C05_NoPrematureEnd / C05_FeasibleAllDone / C05_ByTimeout.',
+        design_ref='DESIGN.md §5 C05',
+        note="trusted: TLC; the tracer's projection of the Simulator state (harness/simrun.py); scheduler answers, draws and fuzz bound from the log; SimMC bounded to the small worlds of harness/simmc.py; corpus = generated + directed worlds (EDF/FIFO/LSF/hostile policies)",
+        technique='TLA+ spec of the simulator loop (Simulator.tla): TLC exhaustive exploration under an arbitrary policy (SimMC) + trace validation of real simulate() runs (SimTrace)',
+    ),
+    "C06": dict(
+        text="LegalEdge as an action property and C06_CancelClosure / C06_StarvedNeverRuns as invariants on SimMC (policy cancels, drop_skipped, conditional branches); every task state change in recorded traces must be the spec's; TaskGraph.cancel is transcribed (worklist) and its result compared task by task.",
+        design_ref='DESIGN.md §5 C06',
+        note="trusted: TLC; the tracer's projection of the Simulator state (harness/simrun.py); scheduler answers, draws and fuzz bound from the log; SimMC bounded to the small worlds of harness/simmc.py; corpus = generated + directed worlds (EDF/FIFO/LSF/hostile policies)",
+        technique='TLA+ spec of the simulator loop (Simulator.tla): TLC exhaustive exploration under an arbitrary policy (SimMC) + trace validation of real simulate() runs (SimTrace)',
+    ),
+    "C07": dict(
+        text="NotifyCompletion for conditional tasks with all draws explored in SimMC (C07_OneBranch, closure of untaken branches up to the terminal); in recorded traces the logged random.choices call must have the conditional's children as population and a non-zero-weight result, and the released / cancelled tasks must equal the spec's.",
+        design_ref='DESIGN.md §5 C07',
+        note="trusted: TLC; the tracer's projection of the Simulator state (harness/simrun.py); scheduler answers, draws and fuzz bound from the log; SimMC bounded to the small worlds of harness/simmc.py; corpus = generated + directed worlds (EDF/FIFO/LSF/hostile policies)",
+        technique='TLA+ spec of the simulator loop (Simulator.tla): TLC exhaustive exploration under an arbitrary policy (SimMC) + trace validation of real simulate() runs (SimTrace)',
+    ),
+    "C08": dict(
+        text='RowsOf(handler) gives the CSV rows every handler must emit (typed fields from the spec state); every recorded row is parsed and compared; C08_Counters / C08_CancelCounter relate the end-of-run summary to task states (SimMC and traces).',
+        design_ref='DESIGN.md §5 C08',
+        note="trusted: TLC; the tracer's projection of the Simulator state (harness/simrun.py); scheduler answers, draws and fuzz bound from the log; SimMC bounded to the small worlds of harness/simmc.py; corpus = generated + directed worlds (EDF/FIFO/LSF/hostile policies)",
+        technique='TLA+ spec of the simulator loop (Simulator.tla): TLC exhaustive exploration under an arbitrary policy (SimMC) + trace validation of real simulate() runs (SimTrace)',
+    ),
+    "C17": dict(
+        text="Dag.tla defines Reach/TopoOK/Depth/Paths/LongestWeight (two ways, cross-checked by TLC on all small graphs)/Dependent/BfsOK/DfsOK; every public Graph/TaskGraph/JobGraph call on all labelled DAGs <= 4 nodes (all child orders, three insertion styles), all upper-triangular 5-node DAGs, random DAGs up to 40 nodes and cyclic graphs is recorded and judged relationally by TLC (DagTrace.tla).",
+        design_ref="DESIGN.md §5 C17",
+        note="trusted: TLC, JSON encoding of call records; exhaustive only up to the stated sizes",
+        technique="TLA+ definitions (Dag.tla) model-checked with TLC + call-record validation of the real graph algorithms",
+    ),
+    "C19": dict(
+        text="Loader.tla: Faithful / ReleasesOK / FreshCopies / DeadlineOK (integer condition derived from EventTime.fuzz, proved equivalent to the existential definition by TLC) / WorkersOK and a closed-loop state machine (in-flight <= concurrency, N in total) model-checked; seeded descriptions (json/yaml, all release policies, override flags, replication) are loaded by the real WorkloadLoader/WorkerLoader, projected and judged record by record by TLC.",
+        design_ref="DESIGN.md §5 C19",
+        note="trusted: TLC, json/yaml serialisers, projection through public getters; sampled descriptions",
+        technique="TLA+ denotation of descriptions (Loader.tla) model-checked with TLC + record validation of real loader output",
+    ),
     "C04": dict(
         text="TLC checks Ledger.tla and Cluster.tla exhaustively (conservation, held-iff-resident, idle-means-full, copy independence) "
         "for small resource vectors; the reachable graphs are then replayed edge by edge on real Resources / WorkerPool objects "
